@@ -656,9 +656,15 @@ impl<W, R, T> CompilationScope<'_, W, R, T> {
                     return Ok(XStaticExpr::LiteralInt(whole));
                 }
                 if let Ok(float) = to_parse.parse::<f64>() {
-                    return Ok(XStaticExpr::LiteralFloat(float));
+                    // a literal beyond the double range would be an infinite float
+                    if float.is_finite() {
+                        return Ok(XStaticExpr::LiteralFloat(float));
+                    }
                 }
-                panic!("{} is not a number", input.as_str());
+                Err(CompilationError::NumericLiteralOutOfRange {
+                    literal: input.as_str().to_string(),
+                }
+                .trace(&input))
             }
             Rule::CNAME => {
                 return Ok(XStaticExpr::Ident(interner.get_or_intern(input.as_str())));
